@@ -735,12 +735,26 @@ def _ragged(case, ctx, d):
         ctx.violation("ragged.refused", f"{fmt}:{bad}:added-cell-accepted-but-silently-dropped",
                       f"{fmt}: a write that adds a unit cell (position {pos} of {parts}, earlier frames without) was accepted, but the "
                       f"file loads {'without any cell' if got.unitcell_lengths is None else 'with another cell for that frame'}")
+    elif consistent and bad == "cell-toggle" and not bcell and _cell_hole(got, sum(parts[:pos])):
+        # the write DROPPED the cell in a file whose other frames have one and was accepted: that frame now loads with a
+        # degenerate cell (zero lengths) among valid ones — a ragged file in all but name
+        ctx.violation("ragged.refused", f"{fmt}:{bad}:dropped-cell-accepted:frames-with-and-without-cell-in-one-file",
+                      f"{fmt}: a write without unit cell (position {pos} of {parts}, other frames with one) was accepted; the file loads "
+                      f"with lengths {got.unitcell_lengths[sum(parts[:pos])].tolist()} for that frame among valid cells")
     elif not consistent:
         ctx.violation("ragged.refused", f"{fmt}:{bad}:ragged-write-accepted-file-inconsistent",
                       f"{fmt}: a {bad} write at position {pos} of {parts} was accepted and the file is now "
                       f"{'unloadable' if got is None else 'holding %d frames instead of %d' % (got.n_frames, n + 1)}")
     else:
         ctx.skip("ragged.refused", f"{fmt}: {bad} write accepted and file stays consistent (format stores a default for every frame)")
+
+
+def _cell_hole(got, k):
+    L = got.unitcell_lengths
+    if L is None or k >= got.n_frames or got.n_frames < 2:
+        return False
+    others = np.delete(np.arange(got.n_frames), k)
+    return bool(np.any(L[k] <= 0) and np.all(L[others] > 0))
 
 
 def _stored_cell(got, k, bt):
